@@ -104,6 +104,44 @@ pub fn selftest_extra() -> Vec<String> {
             }
         }
     }
+    // reference hash functions against hashlib goldens
+    {
+        use refmodel::hashes as h;
+        let root = std::env::var("VERIF_ROOT").unwrap_or_else(|_| "/verif".into());
+        let msg = |n: usize| -> Vec<u8> { (0..n).map(|i| (((i * 7 + 3) ^ (i >> 3)) & 0xFF) as u8).collect() };
+        match std::fs::read_to_string(format!("{root}/golden/hashes.txt")) {
+            Err(e) => errs.push(format!("cannot read golden/hashes.txt: {e}")),
+            Ok(txt) => {
+                let mut n_ok = 0;
+                for line in txt.lines() {
+                    let f: Vec<&str> = line.split(' ').collect();
+                    if f.len() != 5 { continue; }
+                    let (n, ol, kl): (usize, usize, usize) = (f[1].parse().unwrap(), f[2].parse().unwrap(), f[3].parse().unwrap());
+                    let m = msg(n);
+                    let mut key = msg(kl);
+                    key.reverse();
+                    let d = match f[0] {
+                        "sha224" => h::sha224(&m), "sha256" => h::sha256(&m), "sha384" => h::sha384(&m), "sha512" => h::sha512(&m),
+                        "sha512_224" => h::sha512_224(&m), "sha512_256" => h::sha512_256(&m),
+                        "sha3_224" => h::sha3_224(&m), "sha3_256" => h::sha3_256(&m), "sha3_384" => h::sha3_384(&m), "sha3_512" => h::sha3_512(&m),
+                        "shake_128" => h::shake128(&m, ol), "shake_256" => h::shake256(&m, ol),
+                        "blake2s" => h::blake2s(ol, &key, &m),
+                        "hmac_sha256" => h::hmac_sha256(&key, &m),
+                        _ => continue,
+                    };
+                    if refmodel::hex(&d) != f[4] {
+                        errs.push(format!("refmodel {} differs from hashlib for len {} out {} key {}", f[0], n, ol, kl));
+                        if errs.len() > 20 { break; }
+                    } else {
+                        n_ok += 1;
+                    }
+                }
+                if n_ok < 6000 {
+                    errs.push(format!("only {n_ok} golden digests verified"));
+                }
+            }
+        }
+    }
     // prime-field inverse: Euclid vs Fermat
     let p = (num_bigint::BigUint::from(1u32) << 255) - 19u32;
     for _ in 0..50 {
